@@ -9,7 +9,7 @@ from __future__ import annotations
 from hypothesis import HealthCheck, given, seed, settings, strategies as st
 
 from pbt import hist, snap
-from pbt.core import Collector, mksig
+from pbt.core import Collector, HarnessError, mksig
 
 ID = "C01"
 RULE = ("histories = trees of builder calls over live objects of every builder-decorated family (six query-builder classes, set operations, "
@@ -177,7 +177,7 @@ def valid_case(case):
             else:
                 return False
         return n > 0 and ops[0][0] == "new"
-    except Exception:
+    except (Exception, HarnessError):
         return False
 
 
